@@ -18,3 +18,5 @@ OBLIGATIONS = OBLIGATIONS + [K.STREAM_SIBS]
 OBLIGATIONS = OBLIGATIONS + [K.WRITER_UPDATE, K.CONSUMER]
 # type-resolved rules over the MIR facts (tools/bt-mir)
 OBLIGATIONS = OBLIGATIONS + [K.MIR_HASH_ITER]
+# the parallel source reads the chromosome index built by index_chroms: a wrong index makes it differ from the serial source (or refuse sorted input)
+OBLIGATIONS = OBLIGATIONS + [o for o in (K.BISECTION, K.GROUPING, K.VIEWS) if o not in OBLIGATIONS]
